@@ -9,6 +9,8 @@ import (
 	d "github.com/gogo/protobuf/protoc-gen-gogo/descriptor"
 )
 
+type d2Enum = d.EnumDescriptorProto
+
 type Program struct {
 	Name     string
 	Quick    bool
@@ -222,6 +224,33 @@ func programs() []*Program {
 			return &FileSpec{Name: "p.proto", Msgs: []*M{lb, r}}
 		},
 		Cfg: func() *Config { return baseConfig("R") }})
+
+	// kinds x contexts: oneofs, embeds, time/duration, float/uint64 inside map values, list elements
+	// and non-nullable nested messages
+	add(&Program{Name: "P-deep", Quick: false, Bounds: map[string][2]int{"refresh": {2, 1}, "echo": {2, 1}, "from": {2, 1}, "rt": {2, 1}, "corrupt": {1, 1}},
+		File: func() *FileSpec {
+			es := msg("ES", nil, fld("EStr", TString), fld("ENum", TUint32))
+			ep := msg("EP", nil, fld("PStr", TString), fld("PList", TString).rep())
+			dv := msg("DV", []string{"Pick"}, fld("A", TString).oneof(0), mfld("B", "Leaf").oneof(0), fld("C", TFloat).oneof(0), fld("D", TUint64).oneof(0),
+				tsfld("Ts"), mfld("ES", "ES").nonnull().embed())
+			dl := msg("DL", nil, mfld("EP", "EP").embed(), dufld("Du"), fld("F32", TFloat), fld("U64", TUint64), efld("Mode", "Mode"), fld("Raw", TBytes))
+			dn := msg("DN", []string{"choice"}, fld("x", TInt32).oneof(0), efld("y", "Mode").oneof(0), tsfld("Tsv").nonnull(), mapfld("Leaves", mfld("v", "Leaf")),
+				fld("DuI", TInt64).stddur())
+			d := msg("D", nil, mapfld("M", mfld("v", "DV")), mfld("L", "DL").rep(), mfld("N", "DN").nonnull(), mfld("NP", "DN"))
+			return &FileSpec{Name: "p.proto", Enums: []*d2Enum{modeEnum()}, Msgs: []*M{leafMsg(), es, ep, dv, dl, dn, d}}
+		},
+		Cfg: func() *Config { return baseConfig("D") }})
+
+	// a nullable embedded message with scalar, list, object and map children next to a second one
+	add(&Program{Name: "P-embed-mix", Quick: true, Bounds: map[string][2]int{"refresh": {2, 1}, "echo": {2, 1}},
+		File: func() *FileSpec {
+			mix := msg("Mix", nil, fld("MStr", TString), fld("MList", TInt64).rep(), mfld("MSub", "Leaf"), mapfld("MMap", fld("v", TString)), fld("MFlag", TBool))
+			two := msg("Two", nil, fld("TNum", TInt32), tsfld("TTs"))
+			em := msg("EM", nil, fld("Own", TString), mfld("Mix", "Mix").embed(), mfld("Two", "Two").embed(), fld("Tail", TString))
+			hold := msg("EMHold", nil, mfld("Item", "EM"), mfld("Items", "EM").rep())
+			return &FileSpec{Name: "p.proto", Msgs: []*M{leafMsg(), mix, two, em, hold}}
+		},
+		Cfg: func() *Config { return baseConfig("EM", "EMHold") }})
 
 	// messages declared top-down (container before the types it nests): base of the C12 selections
 	add(&Program{Name: "P-order", Quick: true,
